@@ -16,6 +16,15 @@ def jobs(tier):
             # the same histories with the getters queried only around the first call and after close
             out.append({"cfg": cfg, "hists": multi[::2], "oracles": ["counters"], "label": label + " sparse getters",
                         "opts": {"sparse_getters": True}})
+    # relative indices beyond 32 bits (a long or very sparse recording)
+    far = 2**32
+    far_h = [[("w", 0, 2), ("wb", [far + 1, far + 9], [0, 2], 4), ("wn", 2)],
+             [("wb", [3, far + 5], [0, 1], 3), ("w", far + 20, 1)]]
+    for (n, d, fc, sc) in U.LAYOUT_RATES[:3]:
+        k0 = U.start_positions(n, d, fc, sc, U.EPOCHS[1:2])[0][0]
+        for mode in ("gapped", "cont", "gapped+gz9+cks"):
+            out.append({"cfg": dict(c01._cfg(n, d, fc, sc, k0, mode)), "hists": far_h, "oracles": ["counters", "roundtrip_runs"],
+                        "label": "far gap %d/%d %s" % (n, d, mode)})
     # histories with rejected calls interleaved, all modes
     rates = U.LAYOUT_RATES[:3] if tier == "quick" else U.LAYOUT_RATES
     bases = c05.base_histories(tier)
